@@ -69,9 +69,10 @@ MUTANTS = [
     ("P-known-ids-renamed", "cartgraph/graph.py", "            old_ids = {o.id for o in graph.objects}\n            graph.new_objects(\n                [s for s in stubs if s.key == \"nets\" or s.id not in old_ids]\n            )",
      "            known = {obj.id for obj in graph.objects}\n            graph.new_objects([stub for stub in stubs if stub.id not in known or stub.key == \"nets\"])", None),
     ("one-way-bridge", NODE, "            self._bridged_nodes.append(test_node)\n            test_node._bridged_nodes.append(self)", "            self._bridged_nodes.append(test_node)", "1"),
-    ("counters-not-shared", NODE, "            self._dropped_cleanup_nodes = test_node._dropped_cleanup_nodes\n", "", "1"),
+    ("counters-not-shared", NODE, "                node._dropped_cleanup_nodes = test_node._dropped_cleanup_nodes\n", "", "1g"),
+    ("registers-adopted-by-self-only", NODE, "                pending.extend(node._bridged_nodes)\n", "", "1g"),
     ("non-equivalent-accepted", NODE, "        elif not re.search(test_node.bridged_form, self.params[\"name\"]):\n            raise ValueError(f\"Cannot bridge {self} with non-equivalent {test_node}\")\n", "", "1"),
-    ("register-copied", NODE, "            self._picked_by_setup_nodes = test_node._picked_by_setup_nodes\n", "            self._picked_by_setup_nodes = EdgeRegister()\n", "1"),
+    ("register-copied", NODE, "                node._picked_by_setup_nodes = test_node._picked_by_setup_nodes\n", "                node._picked_by_setup_nodes = EdgeRegister()\n", "1"),
     ("bridge-first-only", G, "            for bridge in old_bridges:\n                test_node.bridge_with_node(bridge)", "            for bridge in old_bridges[:1]:\n                test_node.bridge_with_node(bridge)", "2"),
     ("update-bridges-chain", I, "    for node1 in graph.nodes:\n        for node2 in graph.nodes:\n            if node1 == node2:\n                continue\n            if node1.bridged_form == node2.bridged_form:\n                if node1.id == node2.id:\n                    raise ValueError\n                node1.bridge_with_node(node2)",
      "    for i, node1 in enumerate(graph.nodes):\n        for node2 in graph.nodes[i + 1 :]:\n            if node1.bridged_form == node2.bridged_form:\n                if node1.id == node2.id:\n                    raise ValueError\n                node1.bridge_with_node(node2)\n                break", "2u"),
